@@ -200,7 +200,63 @@ def phase_queries(data):
             b["shape"] = item["shape"]
             out["mismatches"].append(b)
     other_thread_cases(out)
+    deeper_than_the_recursion_limit(out)
     return out
+
+
+def deeper_than_the_recursion_limit(out):
+    """every greenlet has a recursion depth of its own: the stitched stack of a thread (child greenlet + parents) may
+    hold more frames than sys.getrecursionlimit().  The true stack is a true stack however long it is."""
+    if greenlet is None:
+        return
+
+    def go(res):
+        old = sys.getrecursionlimit()
+        base = len(true_stack())
+        sys.setrecursionlimit(base + 150)
+        try:
+            def bottom():
+                T = true_stack()
+                st = stackscope.extract_since(None)
+                got = [f.pyframe for f in st.frames]
+                res["limit"] = sys.getrecursionlimit()
+                res["true"] = len(T)
+                res["got"] = len(got)
+                # stackscope's own frames are not reported; T ends with bottom's frame, so does the extraction
+                res["same"] = got == T
+                res["error"] = repr(st.error) if st.error is not None else None
+                o = T[3]
+                st2 = stackscope.extract(StackSlice(outer=o))
+                res["since_outer_same"] = [f.pyframe for f in st2.frames] == T[3:]
+
+            def rec(n, then):
+                if n:
+                    return rec(n - 1, then)
+                return then()
+
+            def child_body():
+                greenlet.getcurrent().parent.switch()
+                rec(100, bottom)
+            child = greenlet.greenlet(child_body)
+            child.switch()                            # started while this greenlet is shallow
+            rec(100, child.switch)                    # resumed from deep inside the parent
+        finally:
+            sys.setrecursionlimit(old)
+    r = on_thread(go)
+    out["n"] += 1
+    if "true" not in r:
+        out["mismatches"].append({"plan": [["deeper than the recursion limit"]], "shape": [], "query": "extract_since(None)",
+                                  "bad": "harness: scenario did not run: %s" % (r.get("error"),)})
+        return
+    if r["true"] <= r["limit"]:
+        out["mismatches"].append({"plan": [["deeper than the recursion limit"]], "shape": [], "query": "extract_since(None)",
+                                  "bad": "harness: the stack has %d frames, the limit is %d" % (r["true"], r["limit"])})
+        return
+    if not r["same"] or r["error"] or not r["since_outer_same"]:
+        out["mismatches"].append({"plan": [["a greenlet resumed from deep inside its parent: %d frames, recursion limit %d" % (r["true"], r["limit"])]],
+                                  "shape": [], "query": "extract_since(None) / StackSlice(outer)",
+                                  "bad": "%d frames reported, the true stack has %d (identical: %s; from an outer frame: %s; error %s)" % (
+                                      r["got"], r["true"], r["same"], r["since_outer_same"], r["error"])})
 
 
 def other_thread_cases(out):
